@@ -1,5 +1,6 @@
 import CM.Ops.Refs
 import CM.Model.Stream
+import CM.Props.C01Contract
 namespace CM.Ops
 open CM CM.Model
 
@@ -37,6 +38,17 @@ def blocksOp : Op
     | _, _, _, _, _ => bad
   | _ => bad
 
-def blocksOps : List (String × Op) := [("blocks", blocksOp)]
+/-- `lpcontract <inputHex> <ext> <fold>` → whether the block-phase line parser met the contract `LPContract` of the
+    tiling theorem (C01) at every step of the in-memory run on this input (`checkLPContractStep` after every line). -/
+def lpcontractOp : Op
+  | [input, ext, fold] =>
+    match Bytes.ofHex input, parsePairs ext, parseFold fold with
+    | some inp, some e, some ft =>
+      let x : PExt := { ext := { unescape := fun s => (e.lookup s).getD s }, fold := fun b => foldWith ft b 0 }
+      if CM.Props.C01.checkDoc (blocksLP x) inp then "ok" else "contract-violated"
+    | _, _, _ => bad
+  | _ => bad
+
+def blocksOps : List (String × Op) := [("blocks", blocksOp), ("lpcontract", lpcontractOp)]
 
 end CM.Ops
